@@ -96,7 +96,7 @@ func stratTrieUnit(c *core.Ctx, e *cat.Strat, cfg []float64, prop string) {
 	k, n := trieShape(w, len(sigmaBars), extra, budget)
 	label := e.Name + fmtCfg(cfg)
 	var nodes, unhealthy, compared, exempt, nontriv int64
-	walkWords(k, n, func(word []int, parent any) any {
+	visit := func(word []int, parent any) any {
 		rows := rowsOf(word)
 		run := RunStrategy(e.New(cfg), cat.Snapshots(rows), 0, mc.Options{})
 		nodes++
@@ -241,7 +241,22 @@ func stratTrieUnit(c *core.Ctx, e *cat.Strat, cfg []float64, prop string) {
 			}
 		}
 		return run
-	})
+	}
+	walkWords(k, n, visit)
+	// one long series on top of the trie (see indTrieUnit): a de Bruijn series over the five bars with positive range
+	// and volume, thousands of snapshots through one pipeline, judged by the same oracle
+	if prop == "C05" || prop == "C06" {
+		minLen := 2200
+		if c.Thorough() {
+			minLen = 20000
+		}
+		word, order := deBruijn(5, minLen)
+		ref.Rel, ref.LongSeries = 1e-9*float64(len(word))/10, true
+		before := len(c.Findings)
+		visit(word, nil)
+		ref.Rel, ref.LongSeries = 1e-9, false
+		abbreviateLong(c, before, len(word), order)
+	}
 	c.States += nodes
 	c.Evaluations += nodes
 	c.Nontrivial += nontriv
@@ -288,7 +303,19 @@ var stratAssume = []string{
 
 func init() {
 	core.Register(&core.Check{ID: "C05", Units: func(tier string) []core.Unit { return append(stratUnits("C05")(tier), wrapperUnits("C05")(tier)...) }, Assume: stratAssume,
-		Rule: "input trie over OHLCV bar words for every base strategy x configuration, plus decorators and compounds over real sub-strategies; oracle: exactly n actions in {Sell,Hold,Buy} with Hold through the warm-up (n >= w), only Holds and at least n of them for n < w; states = trie nodes, transitions = scheduler events; non-trivial = nodes with n >= w"})
+		Rule: "input trie over OHLCV bar words for every base strategy x configuration, plus decorators and compounds over real sub-strategies; oracle: exactly n actions in {Sell,Hold,Buy} with Hold through the warm-up (n >= w), only Holds and at least n of them for n < w; states = trie nodes, transitions = scheduler events; non-trivial = nodes with n >= w; plus one de Bruijn series (every window of 5 bars once, 3 129 snapshots; thorough 78 129) per unit"})
 	core.Register(&core.Check{ID: "C06", Units: stratUnits("C06"), Assume: append(stratAssume, "the rule is restated from the strategy's doc comment (and its inline comments where the doc comment is silent) over the documented-formula references of the indicator catalogue; positions where a compared pair is equal within 1e-9 relative are exempt"),
-		Rule: "input trie over OHLCV bar words for every base strategy x configuration; oracle: action_i = documented rule applied to the reference indicator values at i computed from the documented price fields; non-trivial = nodes with at least one compared (non-exempt) position"})
+		Rule: "input trie over OHLCV bar words for every base strategy x configuration; oracle: action_i = documented rule applied to the reference indicator values at i computed from the documented price fields; non-trivial = nodes with at least one compared (non-exempt) position; plus one de Bruijn series (every window of 5 bars once, 3 129 snapshots; thorough 78 129) per unit, comparison tolerance scaled with the length"})
+}
+
+// abbreviateLong shortens the messages of the findings recorded for the long series (they quote the whole series;
+// the full input stays in the finding's case and in the replay file).
+func abbreviateLong(c *core.Ctx, from, n, order int) {
+	for i := from; i < len(c.Findings); i++ {
+		m := c.Findings[i].Msg
+		if len(m) > 700 {
+			m = m[:330] + " ... " + m[len(m)-260:]
+		}
+		c.Findings[i].Msg = fmt.Sprintf("%s [on the de Bruijn series of %d snapshots, order %d]", m, n, order)
+	}
 }
